@@ -338,7 +338,8 @@ func (sp *SAMLServiceProvider) SigningContext() *dsig.SigningContext {
 	defer sp.signingContextMu.Unlock()
 
 	signing := sp.spSigningKeyStoreOverride
-	if signing == nil {
+	if signing == nil && sp.SPSigningKeyStore == nil {
+		// No explicit signing key at all: fall back to the encryption key.
 		signing = sp.spKeyStoreOverride
 	}
 	var err error
